@@ -195,3 +195,16 @@ pub fn family(t: &DataType) -> &'static str {
         _ => "prim",
     }
 }
+
+/// tokens that denote a null row of type `t` ("~", plus "u<id>:~" for each variant of a union)
+pub fn null_tokens(t: &DataType) -> Vec<String> {
+    let mut v = vec![NULL.to_string()];
+    if let DataType::Union(fields, _) = t {
+        for (id, f) in fields.iter() {
+            for inner in null_tokens(f.data_type()) {
+                v.push(format!("u{id}:{inner}"));
+            }
+        }
+    }
+    v
+}
